@@ -51,8 +51,11 @@ PID = "C18"
 PROOF_FILES = ["theories/Props/C18.v", "theories/Checker/Kkt.v", "theories/Checker/KktZ.v",
                "theories/Spec/ConvexHull.v", "theories/Proofs/SimplexTrace.v",
                "theories/Proofs/SimplexLine.v", "theories/Proofs/SimplexTriangle.v",
-               "theories/Proofs/SimplexLattice.v", "theories/Proofs/SimplexLattice4.v",
-               "theories/Proofs/SimplexOrig.v"]
+               "theories/Proofs/SimplexOrig.v", "theories/Proofs/SimplexLattice.v",
+               "theories/Proofs/SimplexLattice4.v", "theories/Proofs/SimplexRefuted.v"] + \
+              [f"theories/Proofs/SimplexLat4{s}{i}.v" for s in "JO" for i in range(9)]
+BUILD_TARGETS = ["theories/Props/C18.vo", "theories/Model/SimplexRun.vo", "theories/Checker/KktZ.vo",
+                 "theories/Proofs/SimplexTrace.vo"]
 EPS = 2.0 ** -52
 MW = 128                 # witness weights are multiples of 2^-MW
 TB = 2 * MW - 120        # KKT slack T = L^2 2^TB in the checker's units, i.e. 2^-120 L^2
@@ -556,7 +559,7 @@ def evaluate(R, cases, results, tag, per_file):
     for c, r in zip(cases, results):
         perts = [] if is_exact_stream(c["gen"]) else [perturb(R.rng, c["pts"]) for _ in range(N_PERT)]
         jobs.append((c["pts"], r, perts))
-    with ProcessPoolExecutor(max_workers=cm.NCPU) as ex:
+    with ProcessPoolExecutor(max_workers=4) as ex:   # exact-rational witnesses only (a few CPU seconds)
         prepared = list(ex.map(prepare, jobs, chunksize=64))
     outs = cm.coq_eval_lines(PID, HEADER, [p[0] for p in prepared], tag=tag, per_file=per_file)
     ev = []
@@ -849,7 +852,7 @@ def run(tier, seed, replay=None):
         "IEEE-754 rounding is not modelled in the theorems; its effect is measured against the property tolerance by the certificates",
         "harness/compat.py import shim; numpy/numba/CPython/OpenBLAS; the harness builds SimplexInfo through set_first_point/add_new_point with zero-initialised arrays",
     ]
-    R.check_proofs(PROOF_FILES)
+    R.check_proofs(PROOF_FILES, build_targets=BUILD_TARGETS)
 
     cases = gen_cases(R, tier, replay)
     results = run_impl_cases(cases, "impl")
